@@ -29,14 +29,15 @@ def gen_behaviours(cfg, name):
     return path, res
 
 
-def replay(scen, workdir, tag, frag=0, shards=8):
+def replay(scen, workdir, tag, frag=0, shards=8, scale=1, delay_ms=0, every=1):
     traces, procs = [], []
-    n = sum(1 for _ in open(scen))
+    n = sum(1 for _ in open(scen)) // every
     shards = max(1, min(shards, n // 50))
     for i in range(shards):
         tr = os.path.join(workdir, "%s_%d.ndjson" % (tag, i))
         traces.append(tr)
-        cmd = ["timeout", "900", VH, "reader-l1", "--scen", scen, "--out", tr, "--shards", str(shards), "--shard", str(i), "--frag", str(frag)]
+        cmd = ["timeout", "900", VH, "reader-l1", "--scen", scen, "--out", tr, "--shards", str(shards), "--shard", str(i), "--frag", str(frag),
+               "--scale", str(scale), "--delay-ms", str(delay_ms), "--every", str(every)]
         procs.append(subprocess.Popen(cmd, stdout=subprocess.PIPE, stderr=subprocess.PIPE, env=dict(os.environ, RUST_BACKTRACE="0")))
     runs = 0
     for p in procs:
@@ -78,6 +79,11 @@ def run_reader_check(prop, tier):
         p, _ = gen_behaviours("ReaderMC_gen_%s.cfg" % tier, "reader_gen_" + tier)
         sets.append(("faults", p, 0))
         sets.append(("faults_frag1", p, 1))
+        # the same behaviours with a unit of 70 000 bytes (offsets and cuts beyond 2^16, bodies that hyper delivers in several frames)
+        # and with a non-zero retry delay (the Delay state of the range request)
+        sets.append(("faults_scale70000", p, 0, {"scale": 70000, "every": 3 if tier == "quick" else 1}))
+        sets.append(("faults_scale4096_frag3000", p, 3000, {"scale": 4096, "every": 5 if tier == "quick" else 1}))
+        sets.append(("faults_delay15ms", p, 0, {"delay_ms": 15, "every": 6 if tier == "quick" else 2}))
         if tier == "thorough":
             sets.append(("faults_frag2", p, 2))
         lp = gen_cached("LocalMC", "LocalMC.cfg" if tier == "quick" else "LocalMC_thorough.cfg", "reader_local_" + tier)
@@ -86,8 +92,10 @@ def run_reader_check(prop, tier):
     tv = {"events": 0, "scenarios_ok": 0, "verdicts": 0, "states": 0}
     samples = []
     counts = {}
-    for tag, scen, frag in sets:
-        runs, traces = replay(scen, workdir, tag, frag)
+    for st in sets:
+        tag, scen, frag = st[0], st[1], st[2]
+        opts = st[3] if len(st) > 3 else {}
+        runs, traces = replay(scen, workdir, tag, frag, **opts)
         total += runs
         verdicts, summary = tlc_validate("ReaderTrace", "ReaderTrace.cfg", traces)
         for k in tv:
